@@ -6,12 +6,15 @@
 
 #[macro_use]
 pub mod src;
+pub mod algebra;
 pub mod arena;
+pub mod c20;
 pub mod oracle;
 pub mod spec;
 pub mod stubs;
 
 pub mod iters;
+pub mod misc;
 pub mod obs;
 pub mod setops;
 pub mod step;
@@ -53,6 +56,7 @@ macro_rules! harnesses {
         #[kani::stub(std::alloc::Global::grow_impl_runtime, crate::stubs::grow_model)]
         #[kani::stub(std::alloc::Global::alloc_impl_runtime, crate::stubs::alloc_ladder)]
         #[kani::stub(std::vec::Vec::append_elements, crate::stubs::append_elements_model)]
+        #[kani::stub(std::vec::Vec::insert, crate::stubs::insert_model)]
         pub fn $name() { let mut s = src::KaniSrc; ($body)(&mut s); }
     };
 }
